@@ -1,0 +1,50 @@
+//go:build verif
+
+// Contracts for the deductive checker in /verif (gvc). Comments only.
+
+package streams
+
+//@ property C05
+//@ bv uint16 uint8
+
+// What the reassembly callbacks record (the reassembly itself is gopacket's and is not under contract):
+// every packet offered is recorded together with its direction (the two lists stay parallel, which is what the
+// order of direction changes is read from); delivered bytes are attributed to a recorded packet, and only to one
+// with the capture time and capture position of the packet the bytes arrived in; ports are read big-endian.
+
+//@ func (*StreamFactory).NewUDP$1
+//@   requires len(b) >= 2
+//@   ensures result == uint16(b[0])*256 + uint16(b[1])
+//@ func (*StreamFactory).New$1
+//@   requires len(b) >= 2
+//@   ensures result == uint16(b[0])*256 + uint16(b[1])
+
+//@ func (*Stream).Accept
+//@   nosafety
+//@   noframe
+//@   requires s != nil && len(s.Packets) == len(s.PacketDirections)
+//@   ensures recorded: len(s.Packets) == old(len(s.Packets)) + 1 && len(s.PacketDirections) == len(s.Packets) && s.PacketDirections[len(s.Packets)-1] == dir
+
+//@ func (*Stream).AddUDPPacket
+//@   nosafety
+//@   noframe
+//@   requires s != nil && len(s.Packets) == len(s.PacketDirections)
+//@   ensures recorded: len(s.Packets) == old(len(s.Packets)) + 1 && len(s.PacketDirections) == len(s.Packets) && s.PacketDirections[len(s.Packets)-1] == dir
+//@   ensures one_chunk: len(s.Data) == old(len(s.Data)) + ite(len(data) == 0, 0, 1)
+//@   loop 1 invariant len(s.Packets) == old(len(s.Packets)) + 1 && len(s.PacketDirections) == len(s.Packets) && s.PacketDirections[len(s.Packets)-1] == dir && len(s.Data) == old(len(s.Data)) && i < len(s.Packets)
+//@   assert before call append#3: same_packet: 0 <= i && i < len(s.Packets) && len(arg1) == 1 && arg1[0].PacketIndex == uint64(i) && \
+//@       pmd.PcapInfo == pmd2.PcapInfo && pmd.Index == pmd2.Index
+
+//@ func (*Stream).ReassembledSG
+//@   nosafety
+//@   noframe
+//@   requires s != nil
+//@   ensures untouched: len(s.Packets) == old(len(s.Packets)) && len(s.PacketDirections) == old(len(s.PacketDirections))
+//@   loop 1 invariant len(s.Packets) == old(len(s.Packets)) && len(s.PacketDirections) == old(len(s.PacketDirections)) && len(s.Data) == old(len(s.Data)) && i < len(s.Packets)
+//@   assert before call invoke.Fetch#1: same_packet: 0 <= i && i < len(s.Packets) && pmd.PcapInfo == pmd2.PcapInfo && pmd.Index == pmd2.Index
+//@   assert before call append#1: attributed: len(arg1) == 1 && arg1[0].PacketIndex == uint64(i)
+
+//@ func (*Stream).ReassemblyComplete
+//@   requires s != nil
+//@   modifies s.Flags
+//@   ensures s.Flags == old(s.Flags) | 1 && !result
